@@ -97,3 +97,27 @@ def run_check(ctx, modname, units, bounds_text, assumptions=None):
                 "backend reference model (vcheck/sim/backend.py) stands in for the service",
                 "virtual primitives mirror the stdlib (selftest)",
                 "operation positions recovered from operation names the harness assigns"]}
+
+
+def install(g, pid, judges, space_fn, bounds, need_base=False, assumptions=None):
+    """Define exec_one/run/replay in module namespace `g` for a durable-sim based check."""
+    modname = f"vcheck.props.{pid.lower()}"
+
+    def exec_one(unit, prefix, expect=None):
+        return exec_with(judges, unit, prefix, expect, need_base=need_base)
+
+    def run(ctx):
+        return run_check(ctx, modname, space_fn(ctx.tier), bounds, assumptions)
+
+    def replay(rep):
+        r = rep["replay"]
+        unit = {"program": r["program"], "cfg": r["cfg"]}
+        res = exec_one(unit, r["prefix"], expect=r.get("options"))
+        d = res.info["driver"]
+        return {"violations": [{"sig": v["sig"], "msg": v["msg"]} for v in res.violations],
+                "internal": res.internal, "summary": d.summary()}
+
+    g["exec_one"] = exec_one
+    g["run"] = run
+    g["replay"] = replay
+    g["MOD"] = modname
